@@ -122,6 +122,8 @@ def powi(a, n: int):
     if n == 1: return a
     if a.op == 'const' and (a.val != 0 or n > 0):
         return const(a.val ** n)
+    if a.op == 'fn' and a.val == 'abs' and n % 2 == 0:
+        return powi(_mk('fn', (a.args[0],), 'abs2'), n // 2)      # |z|^2 = z conj(z), valid for complex z
     return _mk('powi', (a,), int(n))
 
 
